@@ -50,6 +50,17 @@ def jobs(tier):
                      kind="bounded", defines={"VC_N": n, "VC_XC": xc, "VC_NY": ny}, unwind=max(n, xc, ny) + 4, functions=["LVCalc"], timeout=900,
                      bound="%d objects, %d predictors, %d responses; Y symbolic, product kernels recording oracles" % (n, xc, ny),
                      clause="LVCalc: kernel operand wiring, zeroed output before every accumulating product, start column = largest-variance response, output sizes and block shapes preserved (enforce-run of the LVCalc stub's contract)"))
+    SP = ["matrix.c", "vector.c", "memwrapper.c", "numeric.c", "tensor.c", "list.c"]
+    for (n, xc, nlv, req) in [(2, 2, 2, 2), (2, 2, 2, 3), (3, 1, 1, 1), (1, 2, 2, 1)]:
+        J.append(Job("PLSScorePredictor@n=%d,xc=%d,nlv=%d,req=%d" % (n, xc, nlv, req), "C03/scorepred.c", entry="h_PLSScorePredictor", srcs=SP, kind="bounded",
+                     defines={"VC_N": n, "VC_XC": xc, "VC_NLV": nlv, "VC_REQ": req}, unwind=max(n, xc, nlv) + 4, functions=["PLSScorePredictor"], cbmc_flags=["--slice-formula"], timeout=900,
+                     bound="%d objects, %d predictors, %d stored / %d requested latent variables; weights symbolic" % (n, xc, nlv, req),
+                     clause="PLSScorePredictor: stored preprocessing applied, weights column pc for component pc, zeroed accumulator, scores stored in column pc, shape/clamp"))
+    for (n, ny, nlv, req) in [(2, 2, 2, 3), (3, 1, 2, 1)]:
+        J.append(Job("PLSYPredictor_shape@n=%d,ny=%d,nlv=%d,req=%d" % (n, ny, nlv, req), "C03/scorepred.c", entry="h_PLSYPredictor_shape", srcs=SP, kind="bounded",
+                     defines={"VC_N": n, "VC_NY": ny, "VC_NLV": nlv, "VC_REQ": req}, unwind=max(n, ny, nlv) + 4, functions=["PLSYPredictor"], cbmc_flags=["--slice-formula"], timeout=900,
+                     bound="%d objects, %d responses, %d score columns / %d requested" % (n, ny, nlv, req),
+                     clause="PLSYPredictor: output shape, latent-variable clamp, in-bounds (enforce-run of the shape part of its stub contract)"))
     if tier == "thorough":
         for (n, xc, ny, nlv) in [(3, 3, 2, 3), (2, 3, 3, 3), (3, 2, 3, 2)]:
             J.append(pls_job(n, xc, ny, nlv, True, "thorough", "A"))
